@@ -68,8 +68,72 @@ def sp_dec_inexact(ip, st, pos, kws):
     return Bool(T("(%s %s %s)" % (f, to_real(ip.num(pos[0])).s, ip.num(pos[1]).s), "Bool"))
 
 
+# --------------------------------------------------------------------------- itertools.zip_longest
+class StarView(object):
+    """the argument list of f(*xs) when xs has symbolic length (calls.do_call hands it to library functions that set
+    `star_view`)"""
+
+    def __init__(self, view):
+        self.view = view
+
+
+def lib_zip_longest(ip, st, pos, kws):
+    """itertools.zip_longest(*its) (fill value None) for a symbolic number n of NEW iterators made by a generator
+    expression / comprehension (each delivers a known list R(k)):  an iterator over N = max_k len(R(k)) rows (0 rows for
+    n == 0); row j is the n-tuple whose k-th item is R(k)[j] if j < len(R(k)), else None.
+    The argument iterators exist only inside the call (nothing else can reach them), so consuming them has no other effect."""
+    from .sym import Padded
+    from .smt import lit_int
+    if kws:
+        raise U("zip_longest(fillvalue=...)")
+    if not (len(pos) == 1 and isinstance(pos[0], StarView)):
+        raise U("zip_longest of separately given iterators (only zip_longest(*(... for x in xs)) is modelled)")
+    view = pos[0].view
+    get2 = getattr(view, "get2", None)
+    if get2 is None:
+        raise U("zip_longest(*xs): xs is not a comprehension")
+    reg = ip.reg
+
+    def R(k):
+        r, s2 = get2(k)
+        cell = s2.heap.get(r.cid) if isinstance(r, Ref) else None
+        if not isinstance(cell, IterCell) or r.cid in st.heap:
+            raise U("zip_longest(*xs): the items of xs must be iterators created by the comprehension itself")
+        t = getattr(cell.src, "term", None) if cell.src is not None else None
+        if t is None or lit_int(cell.cursor) != 0 or cell.limit is not None or getattr(cell, "kind", None) is not None \
+                or getattr(cell, "live", None) is not None:
+            raise U("zip_longest(*xs): iterator without a content term")
+        if reg.lst_elem[t.sort] != "V":
+            raise U("zip_longest over iterators of " + t.sort)
+        return t
+    n = view.len
+    N = reg.new("zl_rows", "Int")
+    k = T("zk%d" % next(ip.bound), "Int")
+    lk = reg.l_len(R(k))
+    rng = "(and (<= 0 %s) (< %s %s))" % (k.s, k.s, n.s)
+    st.assume(CMP(">=", N, I(0)))
+    st.assume(T("(forall ((%s Int)) (=> %s (<= %s %s)))" % (k.s, rng, lk.s, N.s), "Bool"))
+    st.assume(T("(=> (> %s 0) (exists ((%s Int)) (and %s (= %s %s))))" % (n.s, k.s, rng, lk.s, N.s), "Bool"))
+    st.assume(T("(=> (<= %s 0) (= %s 0))" % (n.s, N.s), "Bool"))
+
+    def row(j):
+        def item(kk):
+            t = R(kk)
+            return Padded(CMP("<", j, reg.l_len(t)), reg.l_get(t, j))
+        v = View(n, item)
+        v.pykind = "tuple"
+        return v
+    ip.assumptions.add("library contract (tier A): itertools.zip_longest(*its) delivers max(len) rows, row j holding the "
+                       "j-th value of every iterator that has one and None for the others")
+    return [(st, ip.new_cell(st, IterCell(View(N, row), I(0))))]
+
+
+lib_zip_longest.star_view = True
+
+
 def register(ix):
     from .contracts import Contract, ClassSpec
+    ix.lib[("itertools", "zip_longest")] = lib_zip_longest
     ix.lib[("decimal", "Decimal")] = lib_decimal
     ix.lib[("decimal", "Context")] = lib_decimal_context
     ix.spec_names["dec_inexact"] = sp_dec_inexact
